@@ -18,6 +18,7 @@ import (
 	"regexp"
 	"sort"
 	"strconv"
+	"sync/atomic"
 	"time"
 
 	"github.com/SAP/go-dblib/tds"
@@ -26,7 +27,7 @@ import (
 	"verifharness/sx"
 )
 
-const watchdog = 20 * time.Second
+const watchdog = 10 * time.Second
 
 type cenv struct {
 	pc         *pipeConn
@@ -66,6 +67,30 @@ func (e *cenv) startReader() {
 	}()
 }
 
+// watchdogHits counts watchdog expiries in this process; after a few of them the remaining cases of a family are
+// skipped (every expiry already is a reported case; a broken reader would otherwise cost the full bound per case)
+var watchdogHits int32
+
+func tooManyHangs() bool { return atomic.LoadInt32(&watchdogHits) > 6 }
+
+// waitIdle waits until the reader goroutine has processed everything that was fed; false: it did not within the
+// watchdog bound, or it is gone (returned / panicked)
+func (e *cenv) waitIdle() bool {
+	deadline := time.Now().Add(watchdog)
+	for time.Now().Before(deadline) {
+		if e.pc.WaitIdle(5 * time.Millisecond) {
+			return true
+		}
+		select {
+		case <-e.readerDone:
+			return false
+		default:
+		}
+	}
+	atomic.AddInt32(&watchdogHits, 1)
+	return false
+}
+
 // autoAck: the peer acknowledges every SETUP packet at once.
 func (e *cenv) autoAck() {
 	e.pc.onWrite = func(w []byte) {
@@ -78,6 +103,9 @@ func (e *cenv) autoAck() {
 // newChannel calls NewChannel under a watchdog.
 func (e *cenv) newChannel() (ch *tds.Channel, err error, ok bool) {
 	ret, pan := within(watchdog, func() { ch, err = e.conn.NewChannel() })
+	if !ret {
+		atomic.AddInt32(&watchdogHits, 1)
+	}
 	return ch, err, ret && !pan
 }
 
@@ -193,7 +221,7 @@ func closeCode(err error, returned bool) int64 {
 }
 
 // runRouting executes one fn-1 case on the real connection.
-func runRouting(out *sx.Out, need, nenv int, ids []int, ops []rop, tag string) {
+func runRouting(out caser, need, nenv int, ids []int, ops []rop, tag string) {
 	e := newEnv(100000, true)
 	defer e.shutdown()
 	e.autoAck()
@@ -247,7 +275,7 @@ func runRouting(out *sx.Out, need, nenv int, ids []int, ops []rop, tag string) {
 			continue
 		}
 		e.pc.Feed(core.WireBytes([]core.Pkt{o.pkt}))
-		if !e.pc.WaitIdle(watchdog) {
+		if !e.waitIdle() {
 			res = append(res, sx.L{sx.I(-9)})
 			break
 		}
@@ -368,9 +396,9 @@ func responsePackets(g *pk.Gen, channel int, cutProb int, packsize bool, pre ...
 }
 
 // genRouting: random interleavings of per-channel packet streams, unknown ids, header-only packets, closes.
-func genRouting(g *pk.Gen, out *sx.Out, n int) {
+func genRouting(g *pk.Gen, out caser, n int) {
 	rng := g.Rng
-	for k := 0; k < n; k++ {
+	for k := 0; k < n && !tooManyHangs(); k++ {
 		nch := rng.Range(1, 16)
 		switch k % 8 {
 		case 0:
